@@ -1390,6 +1390,249 @@ def r03_8(prog, rep, rid='R03.8'):
 
 
 # ------------------------------------------------------------------------------
+# R03.10  what a task is handed is what was found free for it.  A search
+# tests the state of one element of the node's core / gpu list and records an
+# index for it; _change_slot_states later marks `node[kind][index]` and the
+# release frees it.  The index recorded must address, in the node's list, the
+# very element that was tested - else the task is handed (and later frees) a
+# core another task holds.  Decided on the iteration domain of each pick:
+#   for i, x in enumerate(L[a:], a)   i addresses x in L iff the count starts
+#                                     where the slice starts
+#   for x in L: .. index=x.index      the element's own index
+#   if L[i] == FREE: .. index=i       tested and recorded through one cursor
+#
+def _pick_index(g, call, P):
+    """the index expression recorded by the pick `<list>.append(<entry>)`"""
+    from .c02 import _hoisted
+    if not call.args:
+        return None
+    entry = _hoisted(g, call.args[0], P.id)[0]
+    if isinstance(entry, ast.Call):
+        return kwarg(entry, 'index', 0)
+    if isinstance(entry, ast.Dict):
+        for k, v in zip(entry.keys, entry.values):
+            if isinstance(k, ast.Constant) and k.value == 'index':
+                return v
+        return None
+    return entry
+
+
+def _is_zero(e):
+    return e is None or (isinstance(e, ast.Constant) and e.value == 0 and
+                         not isinstance(e.value, bool))
+
+
+def check_pick_index(prog, rep, rid, label, f, g, P, call, kind, loc):
+    from .c02 import _hoisted, origin
+    from ..flow import reaching_defs
+    E = _pick_index(g, call, P)
+    if E is None:
+        raise AnalysisError('UNRECOGNISED-IDIOM %s: no index is recorded by '
+                            '`%s`' % (f.where, short(call, 50)))
+    ed = Deps(f.node, implicit=False)
+    tests = [g.nodes[t] for t, lab in guards(g, P.id)
+             if g.nodes[t].ast is not None]
+    hist = ('node 0 of the pilot: task A holds cores 0 and 1; task B (2 '
+            'ranks x 2 cores) is placed on the same node: its second rank '
+            'tests cores 4, 5 and is handed 0, 1; releasing B frees the '
+            'cores A still runs on and a third task is granted them')
+
+    def same_list(e, at):
+        e = _hoisted(g, e, at)[0]
+        return unparse(e) == loc
+
+    # (b) the element's own index: `for x in L` .. index = x.<attr>
+    if isinstance(E, ast.Attribute) and isinstance(E.value, ast.Name):
+        x = E.value.id
+        defs = reaching_defs(g, x, P.id)
+        heads = [n for n, v in defs if n.kind == 'for']
+        if len(defs) == 1 and heads and isinstance(heads[0].ast.target,
+                                                  ast.Name):
+            H = heads[0]
+            it = H.ast.iter
+            rep.check(same_list(it, H.id), rid, f,
+                      '%s: `%s` records the own index of the element of %s '
+                      'that is tested' % (label, short(call, 40), loc),
+                      construct='%s:%s:index:%s' % (label, kind, unparse(E)),
+                      message='%s: `%s` records `%s`, the index field of an '
+                      'element of `%s`; the %s of the node are %s'
+                      % (label, short(call, 50), unparse(E), short(it, 40),
+                         kind, loc), loc=f.loc(call), history=hist)
+            return
+        raise AnalysisError('UNRECOGNISED-IDIOM %s: `%s` is not the element '
+                            'of a plain loop over %s' % (f.where, x, loc))
+    if not isinstance(E, ast.Name):
+        raise AnalysisError('UNRECOGNISED-IDIOM %s: the index recorded by '
+                            '`%s` is computed (`%s`)' % (f.where,
+                                                         short(call, 40),
+                                                         short(E, 30)))
+    i = E.id
+    defs = reaching_defs(g, i, P.id)
+    heads = [n for n, v in defs if n.kind == 'for']
+    # (a) index and element come from one enumerate()
+    if heads:
+        H = heads[0]
+        tg, it = H.ast.target, H.ast.iter
+        if len(defs) != 1 or not (
+                isinstance(tg, (ast.Tuple, ast.List)) and len(tg.elts) == 2
+                and isinstance(tg.elts[0], ast.Name) and tg.elts[0].id == i
+                and isinstance(tg.elts[1], ast.Name)
+                and isinstance(it, ast.Call) and dotted(it.func) == 'enumerate'
+                and it.args):
+            # a cursor that happens to be a loop variable: range() scans
+            it = None
+            # `for i in <local list of indices>` (a chunk cut from the list
+            # of indices collected beforehand): the entry re-groups indices
+            # that the collecting pick recorded - that pick is checked
+            src = _hoisted(g, H.ast.iter, H.id)[0]
+            while isinstance(src, ast.Subscript) and isinstance(src.slice,
+                                                                 ast.Slice):
+                src = src.value
+            if len(defs) == 1 and isinstance(tg, ast.Name) and \
+                    isinstance(src, ast.Name) and \
+                    src.id != loc.split('[')[0].split('.')[0] and \
+                    any(isinstance(c.func, ast.Attribute) and
+                        c.func.attr in ('append', 'extend') and
+                        isinstance(c.func.value, ast.Name) and
+                        c.func.value.id == src.id
+                        for c in calls_in(f.node)):
+                rep.ok(rid, f, '%s: `%s` re-groups indices collected in `%s`'
+                       % (label, short(call, 40), src.id), f.loc(call))
+                return
+        if it is not None:
+            x = tg.elts[1].id
+            if not any(x in ed.expr_depends(t.ast) for t in tests):
+                raise AnalysisError(
+                    'UNRECOGNISED-IDIOM %s: no guard of `%s` reads the '
+                    'element `%s` that is enumerated with the index'
+                    % (f.where, short(call, 40), x))
+            seq = _hoisted(g, it.args[0], H.id)[0]
+            start = kwarg(it, 'start', 1)
+            lower = None
+            if isinstance(seq, ast.Subscript) and isinstance(seq.slice,
+                                                             ast.Slice):
+                sl = seq.slice
+                if not (sl.step is None or (isinstance(sl.step, ast.Constant)
+                                            and sl.step.value == 1)):
+                    raise AnalysisError('UNRECOGNISED-IDIOM %s: stepped '
+                                        'slice `%s`' % (f.where,
+                                                        short(seq, 40)))
+                lower, seq = sl.lower, seq.value
+            if not same_list(seq, H.id):
+                raise AnalysisError(
+                    'UNRECOGNISED-IDIOM %s: `%s` enumerates `%s`, which is '
+                    'not (a slice of) %s' % (f.where, short(H.ast.iter, 50),
+                                             short(seq, 30), loc))
+
+            def term(e):
+                return None if _is_zero(e) else unparse(
+                    _hoisted(g, e, H.id)[0])
+            ok = term(start) == term(lower) or (
+                not _is_zero(start) and not _is_zero(lower) and
+                unparse(start) == unparse(lower))
+            rep.check(ok, rid, f,
+                      '%s: `%s` counts from where the slice starts: the '
+                      'index recorded for an element is its index in %s'
+                      % (label, short(H.ast.iter, 60), loc),
+                      construct='%s:%s:enumerate-start' % (label, kind),
+                      message='%s: the %s are scanned with `%s`: the element '
+                      'tested in round k is %s[%s + k], the index recorded '
+                      'for it by `%s` is %s + k.  The index does not address '
+                      'the element that was found free: the slot names %s '
+                      'that were never tested (held by another task, or '
+                      'handed to the previous rank of the same task); '
+                      '_change_slot_states marks them, and the release of '
+                      'this task frees them while the other task still runs'
+                      % (label, kind, short(H.ast.iter, 70), loc,
+                         '0' if _is_zero(lower) else unparse(lower),
+                         short(call, 40),
+                         '0' if _is_zero(start) else unparse(start), kind),
+                      loc=f.loc(H.ast), history=hist)
+            return
+    # (c) one cursor: the guard tests L[i], the pick records i
+    subs = []
+    for t in tests:
+        # the test itself and what its hoisted operands were computed from,
+        # each looked at where it is evaluated
+        exprs = [(t.ast, t.id)]
+        for x in walk(t.ast):
+            if isinstance(x, ast.Name):
+                e, at = _hoisted(g, x, t.id)
+                if e is not x:
+                    exprs.append((e, at))
+        for top, at in exprs:
+            for e in walk(top):
+                if isinstance(e, ast.Subscript) and \
+                        not isinstance(e.slice, ast.Slice) and \
+                        same_list(e.value, at):
+                    subs.append((g.nodes[at], e))
+    if not subs:
+        raise AnalysisError('UNRECOGNISED-IDIOM %s: how the index `%s` '
+                            'recorded by `%s` relates to the element of %s '
+                            'that is tested is not recognised'
+                            % (f.where, i, short(call, 40), loc))
+    for t, e in subs:
+        j = e.slice
+        ok = isinstance(j, ast.Name) and j.id == i and \
+            origin(g, i, t.id) == origin(g, i, P.id)
+        rep.check(ok, rid, f,
+                  '%s: `%s` tests %s[%s] and the pick records %s, unchanged '
+                  'in between' % (label, short(t.ast, 40), loc, i, i),
+                  construct='%s:%s:cursor' % (label, kind),
+                  message='%s: the guard `%s` tests the element `%s` of the '
+                  'node\'s %s, the pick `%s` records the index `%s`%s: the '
+                  'index recorded is not the one that was found free'
+                  % (label, short(t.ast, 50), short(e, 40), kind,
+                     short(call, 40), i,
+                     '' if not (isinstance(j, ast.Name) and j.id == i)
+                     else ' after it was changed'),
+                  loc=f.loc(call), history=hist)
+
+
+def r03_10(prog, rep, rid='R03.10'):
+    from .c01 import find_resources_info, pick_sites
+    rep.rule(rid, 'every search records, for a core / gpu it found free, the '
+             "index that addresses the tested element in the node's list "
+             '(enumerate() over a slice counts from the start of the slice; '
+             "the element's own index; one cursor for test and record): "
+             'while a task holds resources nothing it holds is offered to '
+             'another task', minimum=7)
+    base, classes = sched_classes(prog)
+    todo = []
+    for K in classes:
+        f, g, d, nodevar, res, appends = find_resources_info(prog, K)
+        todo.append((K.name, f, g, d, {'cores': "%s['cores']" % nodevar,
+                                       'gpus': "%s['gpus']" % nodevar}))
+    node = prog.cls(*NODE)
+    f = prog.find_method(node, 'find_slot')
+    if f is None:
+        raise AnalysisError('Node.find_slot not found')
+    todo.append(('Node.find_slot', f, cfg_of(f), Deps(f.node),
+                 {'cores': 'self.cores', 'gpus': 'self.gpus'}))
+    for label, f, g, d, kinds_loc in todo:
+        rep.saw(f)
+        if label == 'Node.find_slot':
+            # which list a pick fills is decided by the object that reaches
+            # Slot(cores=.., gpus=..): a shared helper inlined twice uses one
+            # local name for both
+            from .c02 import _slot_picks
+            smap = I.stmt_node_map(g)
+            made = [c for c in calls_in(f.node) if dotted(c.func) == 'Slot'
+                    and id(c) in smap and any(k.arg in kinds_loc
+                                              for k in c.keywords)]
+            picks = [(P, c, kind) for P, c, kind, kill in
+                     _slot_picks(f, g, smap, made)]
+        else:
+            picks = pick_sites(prog, f, g, d, kinds_loc)
+        if not picks:
+            raise AnalysisError('UNRECOGNISED-IDIOM %s: no pick of a core / '
+                                'gpu index found' % f.where)
+        for P, call, kind in picks:
+            check_pick_index(prog, rep, rid, label, f, g, P, call, kind,
+                             kinds_loc[kind])
+
+
+# ------------------------------------------------------------------------------
 #
 def run(prog, rep, tier):
     rep.decided = ('debit/credit symmetry of _change_slot_states (both '
@@ -1433,6 +1676,7 @@ def run(prog, rep, tier):
     rep.attempt(r03_5, prog, rep)
     rep.attempt(r03_6, prog, rep)
     rep.attempt(r03_7, prog, rep)
+    rep.attempt(r03_10, prog, rep)
     try:
         from . import c07
         if hasattr(c07, 'r07_1'):
@@ -1459,6 +1703,8 @@ _C = 'agent/scheduler/continuous.py'
 _J = 'agent/scheduler/continuous_jsrun.py'
 _N = 'resource_config.py'
 _P = 'agent/executing/popen.py'
+
+from . import c02 as _c02          # edit builders of the find_slot shapes
 
 MUTATIONS = [
     dict(name='R03.1 lfs credited with mem', rules=('R03.1',), edits=[
@@ -1568,6 +1814,27 @@ MUTATIONS = [
         (_P, '    def cancel_task(self, task):\n', '    def _disown_task(self, tid):\n        with self._check_lock:\n            if tid not in self._tasks:\n                return False\n            self._tasks.pop(tid, None)\n            return True\n\n    def cancel_task(self, task):\n'),
         (_P, '        with self._check_lock:\n            if tid not in self._tasks:\n                return\n            try:\n                del self._tasks[tid]\n            except KeyError:\n                pass\n\n        # task is still running -- cancel it\n', '        won = self._disown_task(tid)\n        if not won:\n            return\n\n        # task is still running -- cancel it\n'),
         (_P, "        self._prof.prof('task_run_cancel_start', uid=tid)\n", "        self._prof.prof('task_run_cancel_start', uid=tid)\n\n        if proc.poll() is not None:\n            return\n")]),
+    dict(name='R03.10 core scan counts from 0 over a slice that starts at the cursor (seed C03-h2)', rules=('R03.10',), edits=[
+        (_C, "            for core_idx,core in enumerate(node['cores'][loop_core_idx:],\n                                                         loop_core_idx):\n",
+             "            for core_idx,core in enumerate(node['cores'][loop_core_idx:]):\n")]),
+    dict(name='R03.10 whole-GPU scan counts from 0 over the slice', rules=('R03.10',), edits=[
+        (_C, "                for gpu_idx,gpu in enumerate(node['gpus'][loop_gpu_idx:],\n                                                          loop_gpu_idx):\n",
+             "                for gpu_idx,gpu in enumerate(node['gpus'][loop_gpu_idx:]):\n")]),
+    dict(name='R03.10 shared-GPU scan counts from the core cursor', rules=('R03.10',), edits=[
+        (_C, "                for gpu_idx,gpu_occ in enumerate(node['gpus'][loop_gpu_idx:],\n                                                              loop_gpu_idx):\n",
+             "                for gpu_idx,gpu_occ in enumerate(node['gpus'][loop_gpu_idx:],\n                                                              loop_core_idx):\n")]),
+    dict(name='R03.10 core scan over the whole list but counted from the cursor', rules=('R03.10',), edits=[
+        (_C, "            for core_idx,core in enumerate(node['cores'][loop_core_idx:],\n                                                         loop_core_idx):\n",
+             "            for core_idx,core in enumerate(node['cores'], loop_core_idx):\n")]),
+    dict(name='R03.10 jsrun: cursor advanced between the test and the record', rules=('R03.10',), edits=[
+        (_J, "                if node['cores'][core_idx] == rpc.FREE:\n                    cores.append(core_idx)\n                core_idx += 1\n",
+             "                is_free   = node['cores'][core_idx] == rpc.FREE\n                core_idx += 1\n                if is_free:\n                    cores.append(core_idx)\n")]),
+    dict(name='R03.10 jsrun: gpu tested through the core cursor', rules=('R03.10',), edits=[
+        (_J, "                if node['gpus'][gpu_idx] == rpc.FREE:", "                if node['gpus'][core_idx] == rpc.FREE:")]),
+    dict(name='R03.10 find_slot: gpu entries take the index of core elements', rules=('R03.10',), edits=[
+        (_N, "                for ro in self.gpus:", "                for ro in self.cores:")]),
+    dict(name='R03.10 find_slot, shared pick helper: the gpus are picked from the core pool', rules=('R03.10', 'R03.S'),
+         edits=_c02._fs_shared('self.cores, rr.n_gpus, rr.gpu_occupation')),
 ]
 
 SILENT = [
@@ -1642,4 +1909,25 @@ SILENT = [
     dict(name='cancel: arbitration extracted into a helper', edits=[
         (_P, '    def cancel_task(self, task):\n', '    def _disown_task(self, tid):\n        with self._check_lock:\n            if tid not in self._tasks:\n                return False\n            self._tasks.pop(tid, None)\n            return True\n\n    def cancel_task(self, task):\n'),
         (_P, '        with self._check_lock:\n            if tid not in self._tasks:\n                return\n            try:\n                del self._tasks[tid]\n            except KeyError:\n                pass\n\n        # task is still running -- cancel it\n', '        if not self._disown_task(tid):\n            return\n\n        # task is still running -- cancel it\n')]),
+    dict(name='core scan: enumerate start as keyword', edits=[
+        (_C, "            for core_idx,core in enumerate(node['cores'][loop_core_idx:],\n                                                         loop_core_idx):\n",
+             "            for core_idx,core in enumerate(node['cores'][loop_core_idx:],\n                                           start=loop_core_idx):\n")]),
+    dict(name='core scan: the slice hoisted into a local', edits=[
+        (_C, "            for core_idx,core in enumerate(node['cores'][loop_core_idx:],\n                                                         loop_core_idx):\n",
+             "            rest = node['cores'][loop_core_idx:]\n            for core_idx,core in enumerate(rest, loop_core_idx):\n")]),
+    dict(name='core scan: whole list enumerated, cores before the cursor skipped', edits=[
+        (_C, "            for core_idx,core in enumerate(node['cores'][loop_core_idx:],\n                                                         loop_core_idx):\n                if core == rpc.FREE:\n",
+             "            for core_idx,core in enumerate(node['cores']):\n                if core_idx < loop_core_idx:\n                    continue\n                if core == rpc.FREE:\n")]),
+    dict(name='gpu scan: cursor copied into a local used for slice and count', edits=[
+        (_C, "                for gpu_idx,gpu in enumerate(node['gpus'][loop_gpu_idx:],\n                                                          loop_gpu_idx):\n",
+             "                first = loop_gpu_idx\n                for gpu_idx,gpu in enumerate(node['gpus'][first:], first):\n")]),
+    dict(name='jsrun: tested element hoisted into a local', edits=[
+        (_J, "                if node['cores'][core_idx] == rpc.FREE:\n                    cores.append(core_idx)\n",
+             "                state = node['cores'][core_idx]\n                if state == rpc.FREE:\n                    cores.append(core_idx)\n")]),
+    dict(name='find_slot: pool aliased, index of the element through a local', edits=[
+        (_N, "                for ro in self.gpus:\n", "                pool = self.gpus\n                for ro in pool:\n")]),
+    dict(name='find_slot: the two pick loops in one static helper (seeds C02-r4, C02-r8, C01-r3)',
+         edits=_c02._fs_shared()),
+    dict(name='find_slot: pick helper returns the list, caller compares the length (seed C02-r10)',
+         edits=_c02._fs_picked()),
 ]
